@@ -428,15 +428,15 @@ theorem stepRun_W {cfg : Cfg} {s : St} (a : InvA cfg s) (r : InvR s) (b : InvB s
       subst htu
       have hu : rcving s0 u := ⟨hal, Or.inr hp⟩
       split
-      · exact i0.leave_finish u hu (s1 := ({ s0 with vres := none, rcvBusy := false, gone := _ } : St).emit (.ret u .eoq)) rfl rfl rfl rfl rfl
-      · exact i0.leave_finish u hu (s1 := ({ s0 with vres := none, rcvBusy := false, gone := _ } : St).emit (.ret u .cancelled)) rfl rfl rfl rfl rfl
+      · exact i0.leave_finish u hu (s1 := ({ s0 with vres := none, rcvBusy := false, queue := _ } : St).emit (.ret u .eoq)) rfl rfl rfl rfl rfl
+      · exact i0.leave_finish u hu (s1 := ({ s0 with vres := none, rcvBusy := false, queue := _ } : St).emit (.ret u .cancelled)) rfl rfl rfl rfl rfl
     · rename_i u hp
       have htu : t = .U u := allowed_loginWait (by rw [hp] at htyp; exact htyp)
       subst htu
       have hu : rcving s0 u := ⟨hal, Or.inl hp⟩
       split
-      · exact i0.leave_finish u hu (s1 := ({ s0 with vres := none, rcvBusy := false, gone := _ } : St).emit (.ret u .refused)) rfl rfl rfl rfl rfl
-      · refine i0.leave_enter u hu (s1 := ({ s0 with vres := none, rcvBusy := false, gone := _ } : St).setStatus (.U u) .ready)
+      · exact i0.leave_finish u hu (s1 := ({ s0 with vres := none, rcvBusy := false, queue := _ } : St).emit (.ret u .refused)) rfl rfl rfl rfl rfl
+      · refine i0.leave_enter u hu (s1 := ({ s0 with vres := none, rcvBusy := false, queue := _ } : St).setStatus (.U u) .ready)
           ?_ rfl (enterClose_spec (ClosePre.of_cancelled a0 b0 (c := .userTail u .cancelled) rfl (stageOf_user u) rfl rfl (fun _ => rfl)) rfl)
         intro y hy; simp [St.setStatus, hy]
     · rename_i hp
